@@ -10,7 +10,7 @@ REPO=${REPO:-/repo}
 mkdir -p $V/_build
 SCR=$(mktemp -d $V/_build/refac.XXXX)
 export VERIF_EVIDENCE_DIR=$SCR/ev
-IDS=${@:-$(ls refactors | grep '^R')}
+IDS=${@:-$(ls refactors | grep '^R[0-9]')}
 for ID in $IDS; do
   (cd $REPO && git apply $V/refactors/$ID/patch.diff) || { echo "$ID: patch does not apply"; continue; }
   row=""
